@@ -403,6 +403,21 @@ class ApiSession:
                 api.emit("api_ret", call=ev["seq"], op="sub_initialize", idx=k, exc=type(exc).__name__ if exc else None, msg=str(exc)[:200] if exc else None, attrs=attrs)
                 if it.get("gap"):
                     api.sleep(it["gap"])
+            late = spec.get("late")
+            if late:
+                # further subunit objects are constructed on the live connection at a moment when lines are being delivered (the reader thread
+                # is inside the fan-out to the registered callbacks); later reports for them must be readable
+                api.sleep(max(0.0, late["at"] - sched.S.now / 1e6))
+                late_objs = []
+                for it in late["inits"]:
+                    late_objs.append(subunit_class(it["class"])(conn))
+                api.emit("late_constructed", n=len(late_objs))
+                api.sleep(late.get("settle", 2.0))
+                for k, (it, o) in enumerate(zip(late["inits"], late_objs)):
+                    attrs = {n: show(h.value) for n, h in o.function_handlers.items() if Cmd.GET in h.function.cmd and h.value is not None}
+                    api.emit("late_state", idx=k, cls=it["class"], attrs=attrs)
+                for o in late_objs:
+                    o.close()
             api.sleep(spec.get("settle", 1.0))
             for obj in objs:
                 obj.close()
